@@ -708,6 +708,9 @@ func runShard(c *Check, env *Env, opts RunOpts, base string, shard, of, n int, a
 			if th := crashTagHook[c.ID]; th != nil {
 				tags = th(env, openIdx)
 			}
+			if th := crashTagLogHook[c.ID]; th != nil {
+				tags = append(tags, th(env, openIdx, filepath.Join(dir, "out.log"))...)
+			}
 			r.Violate("crash", tags, map[string]any{"seed": env.Seed, "tier": env.Tier, "idx": openIdx}, "child process died in case %d: %s", openIdx, panicHead(filepath.Join(dir, "out.log")))
 		}
 		done[openIdx] = true
@@ -728,6 +731,30 @@ func SetHangHook(id string, f func(env *Env, idx int, logPath string, r *CaseRes
 var crashTagHook = map[string]func(env *Env, idx int) []string{}
 
 func SetCrashTagHook(id string, f func(env *Env, idx int) []string) { crashTagHook[id] = f }
+
+// crashTagLogHook: the same for checks whose input-side tags are only known while the case runs; the child prints them to its
+// log (stderr) as they arise and the parent reads them back from there.
+var crashTagLogHook = map[string]func(env *Env, idx int, logPath string) []string{}
+
+func SetCrashTagLogHook(id string, f func(env *Env, idx int, logPath string) []string) {
+	crashTagLogHook[id] = f
+}
+
+// StickyTagsFromLog returns the tags of the last "STICKY-TAGS idx=<idx> t1 t2 ..." line of a child's log.
+func StickyTagsFromLog(logPath string, idx int) []string {
+	b, err := os.ReadFile(logPath)
+	if err != nil {
+		return nil
+	}
+	var tags []string
+	prefix := fmt.Sprintf("STICKY-TAGS idx=%d ", idx)
+	for _, line := range strings.Split(string(b), "\n") {
+		if strings.HasPrefix(line, prefix) {
+			tags = strings.Fields(line[len(prefix):])
+		}
+	}
+	return tags
+}
 
 func runWitnessChild(c *Check, env *Env, opts RunOpts, base string, raw json.RawMessage, name string) *CaseResult {
 	dir := filepath.Join(base, name)
@@ -828,6 +855,21 @@ func replayMain(c *Check, env *Env, opts RunOpts, base string) int {
 	}
 	if agg.Evaluations == 0 {
 		fmt.Printf("replay: child died: %s\n", panicHead(filepath.Join(dir, "out.log")))
+		// the same attribution as in a full run: input-side tags of the dead case against the listed findings
+		var tags []string
+		if th := crashTagHook[c.ID]; th != nil {
+			tags = th(env, rep.Idx)
+		}
+		if th := crashTagLogHook[c.ID]; th != nil {
+			tags = append(tags, th(env, rep.Idx, filepath.Join(dir, "out.log"))...)
+		}
+		cv := Violation{Kind: "crash", Tags: tags}
+		for _, f := range LoadFindings(c.ID) {
+			if f.Status == "open" && f.matches(&cv) {
+				fmt.Printf("KNOWN-FINDING: property=%s %s: %s\n", c.ID, f.ID, f.What)
+				return 0
+			}
+		}
 		fmt.Printf("VIOLATION property=%s replay=%s\n", c.ID, opts.Replay)
 		return 1
 	}
